@@ -82,7 +82,12 @@ def generate(seed, tier):
                         if rng.random() < 0.5:
                             a, b = b, a
                         ops.append("t.link %d %d" % (a, b))
-                    ops += ["t.setRoot %d" % rng.randrange(n), "t.valid", "t.rootAt %d" % r, "t.valid"]
+                    ops += ["t.setRoot %d" % rng.randrange(n), "t.valid"]
+                    # the queries that need a rooted tree refuse the (valid) unrooted one
+                    a, b = rng.randrange(n), rng.randrange(n)
+                    ops += ["t.leavesUnder %d" % r, "t.path %d %d %d" % (a, b, rng.randint(0, 1)), "t.epath %d %d" % (b, a),
+                            "t.mrca %d %d" % (a, b), "t.mrca %d" % a, "t.subN %d" % a, "t.subE %d" % b, "t.leavesUnder %d" % a]
+                    ops += ["t.rootAt %d" % r, "t.valid"]
                     for a in range(n):
                         ops.append("t.qn %d" % a)
                     ops += ["t.subN %d" % r, "t.subE %d" % r, "t.leavesUnder %d" % r]
@@ -115,6 +120,9 @@ def generate(seed, tier):
                 ops.append(rng.choice(["t.leavesUnder %d", "t.subN %d", "t.subE %d"]) % a)
             else:
                 ops += ["t.rootAt %d" % a, "t.valid"]
+        if i % 5 == 0:
+            # setOutGroup on a valid rooted tree (it deletes the root first and cannot succeed: see BppModel/Tree.lean)
+            ops += ["t.valid", "t.setOutGroup %d" % rng.randrange(n), "t.valid"]
         cases.append(["case rnd%d dir" % i] + ops)
     # 3. histories mixing topology edits with validity and structural queries (stale cache must show)
     nhist = 6000 if tier == "thorough" else 1200
@@ -127,7 +135,13 @@ def generate(seed, tier):
         while len(ops) < L:
             r = rng.random()
             a, b = rng.randint(0, nn), rng.randint(0, nn)
-            if r < 0.08 and nn < 8:
+            if r < 0.025 and i % 3 == 0:
+                # another container: copy construction / assignment / assignment through the GlobalGraph base, change of container
+                j, k2 = rng.randint(0, 2), rng.randint(0, 2)
+                ops.append(rng.choice(["h.copy %d %d" % (j, k2), "h.copy %d %d" % (j, k2), "h.assign %d %d" % (j, k2),
+                                       "h.gassign %d %d" % (j, k2), "h.sel %d" % k2]))
+                ops.append("t.valid" if rng.random() < 0.5 else "h.sel %d" % rng.randint(0, 2))
+            elif r < 0.08 and nn < 8:
                 ops.append("t.createNode"); nn += 1
             elif r < 0.22:
                 ops.append("t.addSon %d %d" % (a, b))
@@ -142,8 +156,10 @@ def generate(seed, tier):
                 ops.append("t.deleteNode %d" % a)
             elif r < 0.55:
                 ops.append("t.rootAt %d" % a)
-            elif r < 0.59:
+            elif r < 0.585:
                 ops.append("t.unRoot %d" % rng.randint(0, 1))
+            elif r < 0.59:
+                ops.append("t.setOutGroup %d" % a)
             elif r < 0.64:
                 ops.append("t.setRoot %d" % a)
             elif r < 0.67:
@@ -164,8 +180,124 @@ def generate(seed, tier):
                 ops.append(rng.choice(["t.leavesUnder %d", "t.subN %d", "t.subE %d"]) % a)
         ops.append("t.valid")
         cases.append(["case hist%d %s" % (i, "dir" if directed else "undir")] + ops)
+    cases += copy_cases(rng, tier)
     cases += dag_cases(rng, tier)
     cases += obs_cases(rng, tier)
+    cases += dagobs_cases(rng, tier)
+    return cases
+
+
+def dagobs_cases(rng, tier):
+    """the DAG observer: node objects 0..n-1, edge objects; a random DAG (sometimes closed into a cycle) built through
+    addFather / addSon / link with and without edge objects (fresh, attached elsewhere, none); removals, re-rootings,
+    copies of the observer (copy constructor, clone, operator=), validity / rootedness queries in between"""
+    cases = []
+    nobs = 1200 if tier == "thorough" else 500
+    for i in range(nobs):
+        n = rng.randint(1, 6)
+        ops = ["w.createNode %d" % a for a in range(n)]
+        free_obj = list(range(12)); rng.shuffle(free_obj)
+        def obj():
+            r = rng.random()
+            if r < 0.2:
+                return "-"
+            if r < 0.8 and free_obj:
+                return str(free_obj.pop())
+            return str(rng.randrange(12))
+        perm = list(range(n)); rng.shuffle(perm)
+        for _ in range(rng.randint(0, 2 * n)):
+            a, b = rng.randrange(n), rng.randrange(n)
+            if rng.random() < 0.85 and a != b:
+                # along a topological order: no cycle
+                if perm.index(a) > perm.index(b):
+                    a, b = b, a
+            w = rng.random()
+            if w < 0.4:
+                ops.append("w.addSon %d %d %s" % (a, b, obj()))
+            elif w < 0.8:
+                ops.append("w.addFather %d %d %s" % (b, a, obj()))
+            else:
+                ops.append("w.link %d %d %s" % (a, b, obj()))
+        ops += ["w.valid", "w.rooted"]
+        for _ in range(rng.randint(3, 14)):
+            r = rng.random()
+            a, b = rng.randint(0, n), rng.randint(0, n)
+            if r < 0.14:
+                ops.append("w.addSon %d %d %s" % (a, b, obj()))
+            elif r < 0.28:
+                ops.append("w.addFather %d %d %s" % (a, b, obj()))
+            elif r < 0.36:
+                ops.append(rng.choice(["w.removeSon %d %d", "w.removeFather %d %d", "w.unlink %d %d"]) % (a, b))
+            elif r < 0.42:
+                ops.append(rng.choice(["w.removeSons %d", "w.removeFathers %d"]) % a)
+            elif r < 0.46:
+                ops.append("w.deleteNode %d" % a)
+            elif r < 0.58:
+                ops += ["w.rootAt %d" % a, "w.rooted", "w.valid"]
+            elif r < 0.66 and i % 2 == 0:
+                j, k2 = rng.randint(0, 2), rng.randint(0, 2)
+                ops.append(rng.choice(["w.copy %d %d" % (j, k2), "w.clone %d %d" % (j, k2), "w.assign %d %d" % (j, k2)]))
+                ops += ["w.sel %d" % rng.randint(0, 2), "w.qn %d" % a]
+            elif r < 0.76:
+                ops.append(rng.choice(["w.valid", "w.rooted"]))
+            elif r < 0.86:
+                ops.append("w.qn %d" % a)
+            elif r < 0.92:
+                ops.append("w.qe %d" % rng.randrange(12))
+            else:
+                ops.append("w.below %d" % a)
+        ops += ["w.valid", "w.rooted", "w.below %d" % rng.randrange(n)]
+        cases.append(["case dagobs%d obsdag" % i] + ops)
+    return cases
+
+
+def copy_cases(rng, tier):
+    """copies of the tree container: a tree (valid or with one relation too many, cache written or not) is copied /
+    assigned / assigned through the GlobalGraph base into another container; then one of the two is edited and both
+    are queried: the other one must not move, the cached validity of each must stay sound"""
+    cases = []
+    ncopy = 1500 if tier == "thorough" else 600
+    for i in range(ncopy):
+        directed = rng.random() < 0.75
+        n = rng.randint(1, 6)
+        root, par = random_tree(rng, n)
+        ops = ["t.createNode"] * n
+        kids = list(par); rng.shuffle(kids)
+        for c in kids:
+            ops.append("t.link %d %d" % (par[c], c))
+        ops.append("t.setRoot %d" % root)
+        if rng.random() < 0.3 and n >= 2:
+            ops.append("t.link %d %d" % (rng.randrange(n), rng.randrange(n)))
+        if rng.random() < 0.7:
+            ops.append("t.valid")
+        how = rng.choice(["copy", "copy", "assign", "gassign"])
+        if how == "copy":
+            ops.append("h.copy 0 1")
+        else:
+            # the target exists already, with a content and a cache of its own
+            ops += ["h.copy 0 1", "h.sel 1"]
+            ops += ["t.deleteNode %d" % rng.randrange(n), "t.createNode", "t.addSon %d %d" % (rng.randrange(n + 1), rng.randrange(n + 1))]
+            if rng.random() < 0.6:
+                ops.append("t.valid")
+            ops.append("h.sel 0")
+            j, k2 = (0, 1) if rng.random() < 0.6 else (1, 0)
+            ops.append("h.%s %d %d" % (how, j, k2))
+            if rng.random() < 0.15:
+                ops.append("h.%s %d %d" % (how, k2, k2))   # onto itself
+        ops.append("t.valid")
+        ops += ["h.sel 1", "t.valid", "h.sel %d" % rng.randint(0, 1)]
+        # edit one container, look at both
+        for _ in range(rng.randint(1, 5)):
+            a, b = rng.randint(0, n), rng.randint(0, n)
+            ops.append(rng.choice(["t.addSon %d %d" % (a, b), "t.setFather %d %d" % (a, b), "t.removeSon %d %d" % (a, b),
+                                   "t.deleteNode %d" % a, "t.rootAt %d" % a, "t.createNode", "t.unRoot 0", "t.setRoot %d" % a,
+                                   "t.link %d %d" % (a, b), "t.unlink %d %d" % (a, b)]))
+            if rng.random() < 0.5:
+                ops.append("t.valid")
+        ops += ["t.valid", "h.sel 0", "t.valid", "t.qn 0", "h.sel 1", "t.valid", "t.qn 0"]
+        if rng.random() < 0.3:
+            ops += ["h.copy 1 2", "h.sel 2", "t.valid", "t.rootAt %d" % rng.randrange(n), "t.valid", "h.sel 1", "t.valid"]
+        cases.append(["case copy%d %s" % (i, "dir" if directed else "undir")] + ops)
     return cases
 
 
@@ -194,12 +326,32 @@ def dag_cases(rng, tier):
             for (a, b) in es:
                 ops.append(rng.choice(["d.addSon %d %d", "d.link %d %d"]) % (a, b) if rng.random() < 0.7 else "d.addFather %d %d" % (b, a))
             ops += dag_queries(rng, n, n <= 4)
+            if n >= 1 and (n <= 3 or (n == 4 and mask % 2 == 0) or mask % 11 == 0):
+                # re-root at a node (the others: a case each below), ask again; then a second re-rooting
+                r = rng.randrange(n)
+                ops += ["d.rootAt %d" % r, "d.valid", "d.rooted", "d.qn %d" % r, "d.rootAt %d" % rng.randrange(n + 1), "d.rooted", "d.valid"]
             if es and (n <= 4 or mask % 7 == 0):
                 # a backward relation along an existing path makes a cycle; elsewhere it may not
                 a, b = rng.choice(es)
                 ops += ["d.addSon %d %d" % (b, a), "d.valid", "d.rooted", "d.removeSon %d %d" % (b, a), "d.valid"]
             cases.append(["case dagall%d dag" % k] + ops)
             k += 1
+            if 1 <= n <= 4:
+                # every node as the new root, with the caches written before or not; the relations given either way round
+                for r in range(n):
+                    ops = ["d.createNode"] * n
+                    for (a, b) in es:
+                        if rng.random() < 0.25:
+                            a, b = b, a
+                        ops.append("d.addSon %d %d" % (a, b))
+                    if rng.random() < 0.5:
+                        ops += ["d.valid", "d.rooted"]
+                    ops += ["d.rootAt %d" % r, "d.rooted", "d.valid"]
+                    for a in range(n):
+                        ops.append("d.qn %d" % a)
+                    ops += ["d.leavesUnder %d" % r, "d.belowN %d" % r]
+                    cases.append(["case dagroot%d dag" % k] + ops)
+                    k += 1
     nrand = 1500 if tier == "thorough" else 250
     for i in range(nrand):
         n = rng.randint(1, 7)
@@ -229,6 +381,11 @@ def dag_cases(rng, tier):
                 ops.append(rng.choice(["d.link %d %d", "d.unlink %d %d"]) % (a, b))
             elif r < 0.68:
                 ops.append("d.setRoot %d" % a)
+            elif r < 0.73:
+                ops.append("d.rootAt %d" % a)
+            elif r < 0.75 and i % 2 == 0:
+                j, k2 = rng.randint(0, 2), rng.randint(0, 2)
+                ops.append(rng.choice(["h.copy %d %d" % (j, k2), "h.assign %d %d" % (j, k2), "h.gassign %d %d" % (j, k2), "h.sel %d" % k2]))
             elif r < 0.80:
                 ops.append("d.valid")
             elif r < 0.90:
@@ -247,7 +404,7 @@ def obs_cases(rng, tier):
     addSon / setFather with and without edge objects, moved around with setFather (with the object of the
     current branch, a fresh one, one attached elsewhere, none), re-rooted, with validity queries in between"""
     cases = []
-    nobs = 1500 if tier == "thorough" else 300
+    nobs = 1500 if tier == "thorough" else 500
     for i in range(nobs):
         rooted = rng.random() < 0.85
         n = rng.randint(2, 7)
@@ -290,8 +447,17 @@ def obs_cases(rng, tier):
                 ops.append("o.unlink %d %d" % (a, b))
             elif r < 0.64:
                 ops.append("o.deleteNode %d" % a)
-            elif r < 0.74:
+            elif r < 0.70:
                 ops += ["o.rootAt %d" % a, "o.valid"]
+            elif r < 0.74:
+                ops.append(rng.choice(["o.removeSon %d %d" % (a, b), "o.removeSons %d" % a]))
+            elif r < 0.80 and i % 2 == 0:
+                # a copy of the observer (copy constructor, clone(), operator=) observes the same tree; go on through one of them
+                j, k2 = rng.randint(0, 2), rng.randint(0, 2)
+                ops.append(rng.choice(["o.copy %d %d" % (j, k2), "o.clone %d %d" % (j, k2), "o.assign %d %d" % (j, k2)]))
+                ops += ["o.sel %d" % rng.randint(0, 2), "o.qn %d" % a, "o.qt %d %d" % (a, b)]
+            elif r < 0.84:
+                ops.append("o.qt %d %d" % (a, b))
             elif r < 0.86:
                 ops.append("o.valid")
             else:
